@@ -307,6 +307,10 @@ func judge(p *Program, out *Outcome) []Viol {
 		sig := fmt.Sprintf("bad-error defect=%s calls=%s ctx=%s", kind, describe(q.enumerated()), o.HoleType)
 		what := fmt.Sprintf("rejected, but %s; program: %s", o.Bad, q.Source())
 		return []Viol{{Sig: sig, What: what, Prog: p, Min: q, Src: q.Source()}}
+	case out.Class == "accepted" && p.Unmet != "":
+		sig := "requirement-accepted " + p.Unmet
+		what := fmt.Sprintf("design accepted although a security requirement names a scheme whose credential attribute the payload does not define (%s); program: %s", p.Unmet, p.Source())
+		return []Viol{{Sig: sig, What: what, Prog: p, Min: p, Src: p.Source()}}
 	case out.Class == "accepted" && p.Dangling != "" && (out.HasZZ || p.Strict):
 		strict := p.Strict
 		same := func(o *Outcome) bool { return o.Class == "accepted" && (o.HasZZ || strict) }
